@@ -52,6 +52,7 @@ Recover(sg, m, hlen) ==
 \* Signature.Verify(msg, pub)
 VerifyWith(sg, m, k, hlen) ==
   sg.len \in {64, 65} /\ hlen \in {1, 31, 32} /\ RSGood(sg) /\ sg.m = m /\ sg.k = k /\ hlen = 32
+Untouched(sg) == sg.v = "ok" /\ sg.r = "ok" /\ sg.s = "ok" /\ sg.len = 65
 \* definite predictions vs. library latitude: s = "neg" relies on the library accepting high-S values, v = "comp" on
 \* its accepting the compressed-key flag; rejecting those equivalent encodings would be stricter, not wrong
 Definite(sg) == sg.s # "neg" /\ sg.v # "comp"
@@ -99,9 +100,27 @@ Next == \/ Can /\ \E kd \in TxKinds, dt \in DTypes, c \in Keys, ff \in FromForms
         \/ Can /\ \E k \in Keys, m \in Msgs, f \in {"rsv", "vrs", "rs"} : RoundTrip(k, m, f)
 Spec == Init /\ [][Next]_vars
 
+\* ---- histories on ONE process: the same transaction content (same id) verified again with another signature ---------
+\* Verify() must judge every call on its own arguments: an earlier accepted verification of a transaction with this id
+\* (e.g. a cache of verified ids) must not let a same-id twin with a foreign / malformed / missing signature pass,
+\* and an earlier rejection must not block the genuine one.  First call: any well-formed submission with an untreated signature
+\* (by the sender or a foreign key, over this id or another: accepted or rejected); second call: the SAME kind, data type, sender, from form and id with another signature.
+Resubmit(sg2) ==
+  LET f == hist[1] IN
+  /\ hist' = Append(hist, [Rec("submit", f.claimed, f.ff, f.m, sg2, "", 32,
+                               IF ~Parses(sg2) THEN "reject-parse" ELSE IF Accepts(f.claimed, f.ff, f.m, sg2) THEN "accept" ELSE "reject",
+                               Definite(sg2) \/ ~Accepts(f.claimed, f.ff, f.m, sg2))
+                           EXCEPT !.kind = f.kind, !.dt = f.dt] @@ [twin |-> TRUE])
+TwinNext ==
+  \/ /\ Len(hist) = 0
+     /\ \E kd \in TxKinds, dt \in DTypes \ IllFormed, c \in Keys, m \in Msgs, sg \in Sigs :
+           Treats(sg) = 0 /\ Submit(kd, dt, c, "addr", m, sg)
+  \/ /\ Len(hist) = 1
+     /\ \E sg2 \in Sigs : Treats(sg2) <= 1 /\ Resubmit(sg2)
+TwinSpec == Init /\ [][TwinNext]_vars
+
 ----------------------------------------------------------------------------
 (* Properties (C13) *)
-Untouched(sg) == sg.v = "ok" /\ sg.r = "ok" /\ sg.s = "ok" /\ sg.len = 65
 Twin(sg) == sg.v = "flip" /\ sg.r = "ok" /\ sg.s = "neg" /\ sg.len = 65     \* the (R, N-S, V') twin of an untouched signature
 CompFlag(sg) == sg.v = "comp" /\ sg.r = "ok" /\ sg.s = "ok" /\ sg.len = 65  \* same R, S, recovery id; only the key-format flag set
 \* only the sender's key authorizes: an accepted transaction carries a signature made with the claimed sender's key
@@ -123,6 +142,11 @@ SenderAccepted ==
   \A i \in 1..Len(hist) :
      (hist[i].op = "submit" /\ Untouched(hist[i].sig) /\ hist[i].sig.k = hist[i].claimed /\ hist[i].sig.m = hist[i].m
         /\ hist[i].ff = "addr" /\ hist[i].dt \notin IllFormed) => hist[i].res = "accept"
+\* no memory: in every history the verdict of a submission is the one its own arguments give, whatever was verified before
+NoMemory ==
+  \A i \in 1..Len(hist) :
+     hist[i].op = "submit" =>
+        (hist[i].res = "accept") = (Parses(hist[i].sig) /\ Accepts(hist[i].claimed, hist[i].ff, hist[i].m, hist[i].sig) /\ hist[i].dt \notin IllFormed)
 \* signing and recovery round-trip for every key and message
 RoundTrips ==
   \A i \in 1..Len(hist) :
